@@ -822,7 +822,11 @@ impl<R: BufRead + Seek> WebPDecoder<R> {
         // fill starting canvas with clear color
         if self.animation.canvas.is_none() {
             self.animation.canvas = {
-                let mut canvas = vec![0; (self.width * self.height * 4) as usize];
+                let canvas_size = (self.width as usize)
+                    .checked_mul(self.height as usize)
+                    .and_then(|n| n.checked_mul(4))
+                    .ok_or(DecodingError::ImageTooLarge)?;
+                let mut canvas = vec![0; canvas_size];
                 canvas
                     .chunks_exact_mut(4)
                     .for_each(|c| c.copy_from_slice(&info.background_color));
